@@ -113,6 +113,7 @@ class Env:
         self.d = os.path.join(core.scratch_root(), "c12.results[1].batches")
         core.fresh_dir("c12.results[1].batches")
         builtins._xv_draw_a = builtins._xv_draw_b = 0
+        _sibling(self.d)
         sc = self.sc
         # (the farmer that harvested the earlier data is the one the crop is
         # sown from: it holds that data in memory and is pickled with it)
@@ -184,7 +185,36 @@ class Env:
         return self.sc.judge_reaped(res)
 
 
+SIBLING = CROPDIR + "-fine"
+
+
 def check_case(case):
+    """every scenario runs next to another crop whose name begins like the
+    one reaped (sown and grown, never reaped): it is nobody's to delete"""
+    import xyzpy as xyz
+
+    r = _check_case(case)
+    d = os.path.join(core.scratch_root(), "c12.results[1].batches")
+    left = sorted(k for k in fsseam.snapshot(d)
+                  if k.startswith(SIBLING + os.sep) and "xyz-result" in k)
+    if len(left) != 2:
+        r["violations"].append((
+            "C12|%s|%s|other-crop-deleted" % (case["scn"], case["failure"]),
+            "the grown, unreaped crop 'k-fine' next to the one reaped: "
+            "results left %r" % left))
+    return r
+
+
+def _sibling(d):
+    import xyzpy as xyz
+
+    sib = xyz.Crop(fn=xfn.make_fn(["a"], kind="num", name="f12s"),
+                   name="k-fine", parent_dir=d, batchsize=1)
+    sib.sow_combos({"a": [1, 2]}, verbosity=0)
+    sib.grow_missing(verbosity=0)
+
+
+def _check_case(case):
     import xyzpy as xyz
 
     env = Env(case)
